@@ -66,9 +66,12 @@ func genRecs(t *simrt.Tape, n, base int, withQual bool, minLen, maxLen int) []Re
 			r.Annot = map[string]any{"count": 1 + t.Choose(9), "sample": fmt.Sprintf("s%d", t.Choose(3))}
 		case 3:
 			r.Annot = map[string]any{"k": fmt.Sprintf("v%d", t.Choose(5))}
+			if t.Choose(4) == 3 {
+				r.Annot["k"] = "9%" // a percent sign is an ordinary character
+			}
 		}
 		if t.Choose(3) == 1 {
-			r.Def = []string{"a definition", "x", "with > and @ and + signs", "C\u00f4te d'Ivoire \u03b2-tubulin \u2192 5'"}[t.Choose(4)]
+			r.Def = []string{"a definition", "x", "with > and @ and + signs", "C\u00f4te d'Ivoire \u03b2-tubulin \u2192 5'", "98% identity, 100%s %d %v"}[t.Choose(5)]
 		}
 		recs[i] = r
 	}
